@@ -332,6 +332,8 @@ def check_seg(c, label, seg, i, want_names, want_vals, names_seg=None):
     cases = seg.cases(i)
     if not cases:
         c.oblige("post", f"{label}: the loop has a path for this element", T.FALSE, assume_after=False)
+    if cases:
+        c.reachable(label, T.or_(*[cond for cond, _ in cases]))
     for cond, items in cases:
         okn = len(items) == len(want_vals)
         c.oblige("post", f"{label}: contributes {len(want_vals)} item(s) for this element (found {len(items)})", T.implies(cond, T.const(okn)), assume_after=False)
